@@ -416,6 +416,12 @@ func (hc *grpcHandlerConn) Spec() Spec {
 
 func (hc *grpcHandlerConn) Receive(msg any) error {
 	if err := hc.unmarshaler.Unmarshal(msg); err != nil {
+		if errors.Is(err, errSpecialEnvelope) {
+			// Only servers send trailers, but a peer can send the frame all the
+			// same: don't hand the shared sentinel to user code (see
+			// newEndOfStreamError).
+			return newEndOfStreamError()
+		}
 		return err // already coded
 	}
 	return nil // must be a literal nil: nil *Error is a non-nil error
